@@ -16,7 +16,7 @@ new = json.load(open(os.path.join(d, 'meta.json')))
 for k in ('suite_passed', 'suite_failed'):
     new[k] = old.get(k)
 first = {t: (old.get(f'check_{t}') or {}).get('exit') for t in ('quick', 'thorough')}
-hist = old.get('history') or f'first run: quick exit {first["quick"]}, thorough exit {first["thorough"]} (missed)'
+hist = old.get('history') or (f'first run: quick exit {first["quick"]}, thorough exit {first["thorough"]} ' + ('(caught in the thorough tier only)' if first['thorough'] == 1 else '(missed)'))
 new['history'] = hist + ' | ' + note
 new['ran'] = [x for x in old.get('ran', []) if 'pytest' in x] + new['ran']
 json.dump(new, open(os.path.join(d, 'meta.json'), 'w'), indent=1)
